@@ -11,7 +11,7 @@ CONSTANTS MaxDev
 
 S(i) == JStr("salt" \o ToString(i))
 Shapes == {"good", "len0", "len1", "len2", "len3", "len4", "len5", "str", "obj", "num", "name-num", "name-null", "name-_sd", "name-dots", "name-vis", "name-dup"}
-Flags == {"dup-within", "dup-across", "dup-nested", "nonstring-entry", "ph-extra", "ph-nonstring", "sd-notarray", "sd-empty"}
+Flags == {"dup-within", "dup-across", "dup-nested", "dup-arrays", "nonstring-entry", "ph-extra", "ph-nonstring", "sd-notarray", "sd-empty"}
 Algs == {"absent", "sha-512", "number", "null"}
 Devs == {[k |-> "shape", slot |-> s, shape |-> sh] : s \in 1..5, sh \in Shapes \ {"good"}}
         \cup {[k |-> "flag", f |-> f] : f \in Flags} \cup {[k |-> "alg", v |-> a] : a \in Algs} \cup {[k |-> "drop", slot |-> s] : s \in 1..5} \cup {[k |-> "dropall"]}
@@ -62,7 +62,8 @@ Build(D) ==
       pl == JObj([k \in keys |->
                CASE k = "iss" -> JStr("i1") [] k = "exp" -> JNum("EXP") [] k = "vis" -> JStr("x") [] k = "_sd" -> sd
                  [] k = "arr" -> JArr(<<phl, JStr("e1")>>)
-                 [] k = "grid" -> JArr(<<JArr(<<JObj([x \in {"..."} |-> JStr(d5.dg)]), JStr("x")>>), JStr("y")>>)
+                 \* (dup-arrays: the inner placeholder repeats the digest of arr's placeholder - the same digest in two arrays)
+                 [] k = "grid" -> JArr(<<JArr(<<JObj([x \in {"..."} |-> JStr(IF Flag(D, "dup-arrays") THEN d3.dg ELSE d5.dg)]), JStr("x")>>), JStr("y")>>)
                  [] k = "_sd_alg" -> (CASE alg = "sha-256" -> JStr("sha-256") [] alg = "sha-512" -> JStr("sha-512") [] alg = "number" -> JNum("256") [] alg = "null" -> JNull)])
       all == <<d1, d2, d3, d4, d5>>
       pres == SelectSeq(<<1, 2, 3, 4, 5>>, LAMBDA i : ~Dropped(D, i))
@@ -90,7 +91,9 @@ MustReject(D) ==
   \/ Reach1(D) /\ Reach2(D) /\ NameIn(D, 1) # "" /\ NameIn(D, 1) = NameIn(D, 2)                    \* two disclosed members with one name
   \/ Reach3(D) /\ ShapeOf(D, 3) \in BadShapeElem
   \/ Reach4(D) /\ ShapeOf(D, 4) \in BadShapeMember
-  \/ ~Dropped(D, 5) /\ ShapeOf(D, 5) \in BadShapeElem
+  \/ ~Flag(D, "dup-arrays") /\ ~Dropped(D, 5) /\ ShapeOf(D, 5) \in BadShapeElem
+  \/ Flag(D, "dup-arrays") /\ PhIsPlaceholder(D) /\ ~Flag(D, "dup-across")                      \* g3 in arr and in grid
+  \/ Flag(D, "dup-arrays") /\ ~(PhIsPlaceholder(D) /\ ~Flag(D, "dup-across")) /\ ~Dropped(D, 3) /\ ShapeOf(D, 3) \in BadShapeElem   \* d3 reachable through grid only
   \/ SdSearched(D) /\ Flag(D, "dup-within")
   \/ PhIsPlaceholder(D) /\ Flag(D, "dup-across") /\ (SdSearched(D) \/ (~Dropped(D, 2) /\ ShapeOf(D, 2) # "len2"))   \* g2 twice, or a member disclosure behind "..."
   \/ Good1(D) /\ SdSearched(D) /\ Flag(D, "dup-nested")
